@@ -83,27 +83,26 @@ def replay_main(prop, path):
 
 
 def digests_main(prop, seed, spec):
-    """print the full event-log digests of a few groups (used by the determinism self-test in a
-    fresh interpreter under another PYTHONHASHSEED)"""
-    n = int(spec)
+    """print the full event-log digests of the first k self-test tasks (used by the determinism
+    self-test in a fresh interpreter under another PYTHONHASHSEED)"""
+    k = int(spec)
     cp.worker_init()
     out = []
-    for i in range(n):
-        t = {'type': 's1group', 'seed': cp.task_seed(seed, 'selftest', i), 'm': 3,
-             'props': [prop if prop in cp.S1_PROPS else 'C09']}
-        out.append(cp.run_task({'type': 'digest', 'inner': t})['digests'])
+    for t in cp.selftest_tasks(prop, seed, SELFTEST_N)[:k]:
+        out.append(cp.run_task(t)['digests'])
     print('DIGESTS ' + json.dumps(out))
     return 0
 
 
+SELFTEST_N = 48
+
+
 def selftest(prop, seed, tier, nworkers):
-    """Determinism: the same groups twice in different worker processes at two worker counts and
-    once in a fresh interpreter under another PYTHONHASHSEED; all event-log digests must agree."""
-    n = 6 if tier == 'quick' else 48
-    tasks = [{'type': 'digest', 'inner': {'type': 's1group',
-                                          'seed': cp.task_seed(seed, 'selftest', i), 'm': 3,
-                                          'props': [prop if prop in cp.S1_PROPS else 'C09']}}
-             for i in range(n)]
+    """Determinism: the same tasks (taken from every scenario family this check uses) twice in
+    different worker processes at two worker counts and once more in a fresh interpreter under
+    another PYTHONHASHSEED; the full event-log digests of all their runs must agree."""
+    n = 8 if tier == 'quick' else SELFTEST_N
+    tasks = cp.selftest_tasks(prop, seed, SELFTEST_N)[:n]
     r1, e1 = Pool(nworkers, init=cp.worker_init).run(cp.run_task, tasks)
     r2, e2 = Pool(3, init=cp.worker_init).run(cp.run_task, list(reversed(tasks)))
     r2 = list(reversed(r2))
@@ -113,6 +112,8 @@ def selftest(prop, seed, tier, nworkers):
     d2 = [r['digests'] for r in r2]
     if d1 != d2:
         return False, 'event-log digests differ between two executions of the same seeds', 0
+    if not all(d1):
+        return False, 'a self-test task returned no digests', 0
     env = dict(os.environ)
     env['PYTHONHASHSEED'] = '4242'
     k = min(n, 4 if tier == 'quick' else 16)
@@ -125,8 +126,11 @@ def selftest(prop, seed, tier, nworkers):
     d3 = json.loads(line[0][8:])
     if d3 != d1[:k]:
         return False, 'event-log digests differ under another PYTHONHASHSEED', 0
-    return True, f'{n} groups x3 runs: twice (16 vs 3 workers) + {k} in a fresh interpreter ' \
-                 f'under PYTHONHASHSEED=4242, all digests equal', sum(len(x) for x in d1)
+    fams = sorted({t['inner']['type'] for t in tasks})
+    nruns = sum(len(x) for x in d1)
+    return True, f'{n} tasks ({"/".join(fams)}), {nruns} runs: executed twice (16 vs 3 workers) ' \
+                 f'+ {k} tasks again in a fresh interpreter under PYTHONHASHSEED=4242, all ' \
+                 f'event-log digests equal', nruns
 
 
 def check_main(prop, tier, seed, a):
